@@ -358,6 +358,9 @@ class Epoch(object):
             raise ValueError("Invalid number of input values")
         elif len(args) >= 3:  # Year, month, day
             year, month, day, hours, minutes, sec = self._check_values(*args)
+        # The calendar in force is that of the civil day given: the rounding of
+        # the sum below must not carry 1582/10/4 23:59:59.99... into October 5
+        julian = Epoch.is_julian(year, month, iint(day))
         day += hours / DAY2HOURS + minutes / DAY2MIN + sec / DAY2SEC
         # Handle the 'leap_seconds' argument, if pressent
         if "leap_seconds" in kwargs:
@@ -365,22 +368,23 @@ class Epoch(object):
                 self._jde = self._compute_jde(
                     year, month, day, utc2tt=False,
                     leap_seconds=kwargs["leap_seconds"],
-                    local=kwargs["local"])
+                    local=kwargs["local"], julian=julian)
             else:
                 self._jde = self._compute_jde(
                     year, month, day, utc2tt=False,
-                    leap_seconds=kwargs["leap_seconds"])
+                    leap_seconds=kwargs["leap_seconds"], julian=julian)
         elif "utc" in kwargs:
             self._jde = self._compute_jde(year, month, day,
-                                          utc2tt=kwargs["utc"])
+                                          utc2tt=kwargs["utc"], julian=julian)
         elif "local" in kwargs:
             self._jde = self._compute_jde(year, month, day,
-                                          local=kwargs["local"])
+                                          local=kwargs["local"], julian=julian)
         else:
-            self._jde = self._compute_jde(year, month, day, utc2tt=False)
+            self._jde = self._compute_jde(year, month, day, utc2tt=False,
+                                          julian=julian)
 
     def _compute_jde(self, y, m, d, utc2tt=False, leap_seconds=0.0,
-                     local=False):
+                     local=False, julian=None):
         """Method to compute the Julian Ephemeris Day (JDE).
 
         .. note:: The UTC to TT correction is only carried out for dates after
@@ -398,6 +402,9 @@ class Epoch(object):
         :type leap_seconds: float
         :param local: Whether a local time has been provided.
         :type utc2tt: bool
+        :param julian: Whether the date belongs to the Julian calendar. If not
+            given, it is found out from the date itself.
+        :type julian: bool
 
         :returns: Julian Ephemeris Day (JDE)
         :rtype: float
@@ -412,7 +419,9 @@ class Epoch(object):
             m += 12
         a = iint(y / 100.0)
         b = 0.0
-        if not Epoch.is_julian(y, m, iint(d)):
+        if julian is None:
+            julian = Epoch.is_julian(y, m, iint(d))
+        if not julian:
             b = 2.0 - a + iint(a / 4.0)
         jde = (iint(365.25 * (y + 4716.0))
                + iint(30.6001 * (m + 1.0)) + d + b - 1524.5)
